@@ -55,6 +55,12 @@ def gen_ops(d, operator_raw, existing, n_ops, nx):
             ops.append(dict(id=i, op="unload", key=d.pick("op:which", keys)))
         else:
             ops.append(dict(id=i, op="update"))
+    if d.chance("op:dump", 0.3):
+        # an explicit eko.dump() (public API: "dump the current content to archive")
+        # as the LAST statement of the block.  Last, so that what it commits is the
+        # content the fault-free session ends with: after a completed dump a failed
+        # session may legitimately leave either the former or that content.
+        ops.append(dict(id=n_ops, op="dump"))
     return ops
 
 
@@ -119,8 +125,15 @@ def apply_op(eko, case, op):
         del eko[values.realize_key(op["key"])]
     elif kind == "update":
         eko.update()
+    elif kind == "dump":
+        eko.dump()
+        DUMPED[0] = True
     else:
         raise HarnessError(f"unknown op {kind}")
+
+
+# set by a session whose explicit eko.dump() RETURNED (reset by run_session)
+DUMPED = [False]
 
 
 def session(case, target, trace, user_fault_after=None):
@@ -245,6 +258,7 @@ def run_session(case, root, fault=None, ns="run", count_lines=False):
             worker_fault = dict(item=fault["k"], exc=fault.get("exc", "MemoryError"))
         else:
             raise HarnessError(f"unknown fault type {t}")
+    DUMPED[0] = False
     d = Decider(case["wseed"], "fs:" + ns)
     tr = seams.Trace()
     sm = seams.Seams(root, d, trace=tr, plan=seams.FaultPlan(fs_faults), trace_reads=True, cpu_count=4, exdev_between=("tmp", "out") if case.get("exdev") else None)
@@ -291,6 +305,7 @@ def run_session(case, root, fault=None, ns="run", count_lines=False):
         where=li.where if li is not None else None,
         exdev_hits=sm.exdev_hits,
         pool_runs=len(pool_log),
+        dumped=DUMPED[0],
     )
 
 
@@ -523,6 +538,11 @@ def judge_failure(case, fault, r, pre, post, ref_new, stats, stage=""):
                 # the interrupt arrived after the commit point: the run effectively completed
                 stats["committed_interrupts"] += 1
                 return None, True
+            if r.get("dumped") and post == ref_new:
+                # the session itself committed with an explicit dump() that returned
+                # (the last statement of the block) and failed afterwards
+                stats["committed_by_dump"] += 1
+                return None, True
             return (
                 dict(cls="changed-after-failure", key=fkey, fault=fault, msg=f"session failed with {r['raised']!r}; target before: {_describe(pre)}; after: {_describe(post)}" + (" (= the complete NEW content)" if post == ref_new else "")),
                 False,
@@ -541,7 +561,7 @@ def execute(case):
     import hashlib
 
     viol = []
-    stats = dict(faulted_runs=0, fired={}, site_classes={}, absorbed=0, unfired=0, retries=0, leaks_tmp=0, leaks_sibling=0, pair_runs=0, committed_interrupts=0, sim_events=0, exdev_env=1 if case.get("exdev") else 0, exdev_hits=0)
+    stats = dict(faulted_runs=0, fired={}, site_classes={}, absorbed=0, unfired=0, retries=0, leaks_tmp=0, leaks_sibling=0, pair_runs=0, committed_interrupts=0, committed_by_dump=0, sim_events=0, exdev_env=1 if case.get("exdev") else 0, exdev_hits=0)
     samples = []
     sigs = set()
     with Scratch("crash") as root:
@@ -805,7 +825,7 @@ def summarize(results, tier):
     from ..batch import merge_counts
 
     fired, sites, sigs = {}, {}, set()
-    tot = dict(faulted_runs=0, absorbed=0, unfired=0, retries=0, leaks_tmp=0, leaks_sibling=0, pair_runs=0, committed_interrupts=0, sim_events=0, exdev_env=0, exdev_hits=0, tail_runs=0)
+    tot = dict(faulted_runs=0, absorbed=0, unfired=0, retries=0, leaks_tmp=0, leaks_sibling=0, pair_runs=0, committed_interrupts=0, committed_by_dump=0, sim_events=0, exdev_env=0, exdev_hits=0, tail_runs=0)
     samples = []
     wl = {}
     phys = {}
@@ -848,6 +868,7 @@ def summarize(results, tier):
         clean_reruns=tot["retries"],
         pair_runs=tot["pair_runs"],
         committed_interrupts=tot["committed_interrupts"],
+        failures_after_a_completed_explicit_dump=tot["committed_by_dump"],
         probes=dict(runs_leaking_temp_dirs=tot["leaks_tmp"], runs_leaking_target_siblings=tot["leaks_sibling"], workloads_with_cross_device_temp_area=tot["exdev_env"], cross_device_renames_refused=tot["exdev_hits"]),
         sim_events=tot["sim_events"],
         reference_trace_events=events,
